@@ -17,7 +17,9 @@ var typeNamePool = []string{"T", "A", "B", "Int", "String", "Q", "on", "query", 
 var HostileStrings = []string{"", "a", "a b", "\"", "\\", "\"\"\"", "\\\"\"\"", "a\"b", "a\\b", "\\n", "line1\nline2", "  indented", "trailing  ", "\ttab", "a\tb",
 	"\n", "\nlead", "trail\n", "  a\n    b\n  c", "a\n  b", " a\n b", "\n\n", " ", "é", "😀", "\u007f", "\u0000", "\u0001", "\u0007", "\u001f", "\u00AD", "\u200B", "\u2028", "\u2029", "\uFEFF",
 	"\U000E0001", "\uE000", "\U0010FFFF", "a\rb", "a\r\nb", "#notcomment", "$var", "{}", "[1,2]", "\\u0041", "\\", "\"\"", "\"\"\"\"", "x\"\"\"", "\"\"\"x", "'", "/", "\b\f",
-	"on", "query", "null", "true"}
+	"on", "query", "null", "true",
+	// pairs of adjacent runes each of which needs an escape (a decoder that fuses escapes sees them together)
+	"\uFEFF\uFFFE", "\uE000\uE001", "\uFFFF\uFFFF", "\u0001\u0002", "\u2028\u2029", "\uFEFF\uFEFF", "\u007f\u0080", "\uF8FF\uE0FF"}
 
 // SpecifiedDirectives are the directive names every schema has without declaring them.
 var SpecifiedDirectives = []string{"include", "skip", "deprecated", "specifiedBy", "defer", "oneOf"}
